@@ -47,6 +47,86 @@ def _is_log_call(stmt):
     return False
 
 
+_SCOPES = (ast.FunctionDef, ast.AsyncFunctionDef, ast.Lambda, ast.ClassDef)
+_COMPS = (ast.ListComp, ast.SetComp, ast.DictComp, ast.GeneratorExp)
+
+
+def _alpha_rename(fn):
+    """Rename, in place, the local variables of an outermost function to _v0, _v1, ... in order of first occurrence:
+    a consistent injective renaming of identifiers that can only denote locals of this function, so two functions
+    have the same normal form only if they differ by the names of such locals (behaviour-preserving).
+    Selected: names stored directly in the function's own scope (assignment, for/with/except targets, walrus outside
+    comprehensions); and comprehension targets all of whose occurrences lie inside comprehensions binding them.
+    Never selected: parameters (of this or any nested function/lambda), global/nonlocal names, names bound by import,
+    nested def/class names.  Functions containing a class body, or calling locals()/vars()/eval()/exec(), are left alone."""
+    params, declared, imported = set(), set(), set()
+    for n in ast.walk(fn):
+        if isinstance(n, ast.ClassDef):
+            return
+        if isinstance(n, ast.Name) and n.id in ("locals", "vars", "eval", "exec", "globals"):
+            return
+        if isinstance(n, (ast.FunctionDef, ast.AsyncFunctionDef, ast.Lambda)):
+            a = n.args
+            for x in a.args + a.kwonlyargs + a.posonlyargs + ([a.vararg] if a.vararg else []) + ([a.kwarg] if a.kwarg else []):
+                params.add(x.arg)
+            if not isinstance(n, ast.Lambda):
+                params.add(n.name)
+        if isinstance(n, (ast.Global, ast.Nonlocal)):
+            declared.update(n.names)
+        if isinstance(n, (ast.Import, ast.ImportFrom)):
+            imported.update((al.asname or al.name).split(".")[0] for al in n.names)
+        if isinstance(n, (ast.MatchAs, ast.MatchStar)) and n.name:
+            imported.add(n.name)          # capture patterns: left alone
+        if isinstance(n, ast.MatchMapping) and n.rest:
+            imported.add(n.rest)
+        if isinstance(n, ast.Name) and len(n.id) > 2 and n.id.startswith("_v") and n.id[2:].isdigit():
+            return                          # would collide with the canonical names
+    own, comp_bound, outside_comp = set(), set(), set()
+
+    def walk(node, in_nested_scope, comps):
+        # comps: tuple of sets of names bound by the enclosing comprehensions
+        if isinstance(node, _COMPS):
+            bound = set()
+            for g in node.generators:
+                for t in ast.walk(g.target):
+                    if isinstance(t, ast.Name):
+                        bound.add(t.id)
+            comp_bound.update(bound)
+            comps = comps + (bound,)
+        for child in ast.iter_child_nodes(node):
+            nested = in_nested_scope or (isinstance(child, _SCOPES) and child is not fn)
+            if isinstance(child, ast.Name):
+                if isinstance(child.ctx, ast.Store) and not nested and not comps:
+                    own.add(child.id)
+                if not any(child.id in b for b in comps):
+                    outside_comp.add(child.id)
+            elif isinstance(child, ast.ExceptHandler) and child.name and not nested:
+                own.add(child.name)
+            walk(child, nested, comps)
+
+    walk(fn, False, ())
+    banned = params | declared | imported
+    selected = (own | (comp_bound - outside_comp)) - banned
+    if not selected:
+        return
+    order = {}
+
+    def number(node):
+        for child in ast.iter_child_nodes(node):
+            if isinstance(child, ast.Name) and child.id in selected and child.id not in order:
+                order[child.id] = f"_v{len(order)}"
+            if isinstance(child, ast.ExceptHandler) and child.name in selected and child.name not in order:
+                order[child.name] = f"_v{len(order)}"
+            number(child)
+
+    number(fn)
+    for n in ast.walk(fn):
+        if isinstance(n, ast.Name) and n.id in order:
+            n.id = order[n.id]
+        elif isinstance(n, ast.ExceptHandler) and n.name in order:
+            n.name = order[n.name]
+
+
 class _Normalise(ast.NodeTransformer):
     def _body(self, body):
         out = []
@@ -66,7 +146,20 @@ class _Normalise(ast.NodeTransformer):
                 setattr(node, field, self.visit(old))
         return node
 
+    _depth = 0
+
     def visit_FunctionDef(self, node):
+        if self._depth == 0:
+            _alpha_rename(node)
+        self._depth += 1
+        try:
+            return self._visit_function(node)
+        finally:
+            self._depth -= 1
+
+    visit_AsyncFunctionDef = visit_FunctionDef
+
+    def _visit_function(self, node):
         node.returns = None
         for a in node.args.args + node.args.kwonlyargs + node.args.posonlyargs:
             a.annotation = None
@@ -202,7 +295,73 @@ def known_variants(frag: Fragment) -> dict[str, str]:
     return out
 
 
+# ----------------------------------------------------------------------------------------------
+# Canonical view.  tools/shapes/_ref/ holds a copy of the source files the fragments read, as they stood when the
+# recognisers were written.  A function of the current tree that has the same NORMAL FORM as its reference (same
+# code up to docstrings, log calls, annotations and the names of its local variables) is behaviourally the same
+# function, so the recognisers -- some of which look for particular local names -- are shown the reference text of
+# that function instead.  Functions that differ in any other way are shown as they are.  A stale reference only
+# means that no substitution happens.
+# ----------------------------------------------------------------------------------------------
+REF = SHAPES / "_ref"
+
+
+def _substitute_container(cur, ref) -> int:
+    n = 0
+    ref_defs = {}
+    for s in getattr(ref, "body", []):
+        if isinstance(s, (ast.FunctionDef, ast.AsyncFunctionDef, ast.ClassDef)):
+            ref_defs.setdefault(s.name, s)
+    for i, s in enumerate(list(getattr(cur, "body", []))):
+        r = ref_defs.get(getattr(s, "name", None))
+        if r is None or type(r) is not type(s):
+            continue
+        if isinstance(s, ast.ClassDef):
+            n += _substitute_container(s, r)
+        elif ast.dump(s) != ast.dump(r) and norm_dump(s) == norm_dump(r) \
+                and ast.dump(s.args) == ast.dump(r.args) and [ast.dump(d) for d in s.decorator_list] == [ast.dump(d) for d in r.decorator_list]:
+            cur.body[i] = r
+            n += 1
+    return n
+
+
+def canonical_view(repo: Path):
+    """-> (path to read sources from, [(file, functions substituted)], cleanup callable)"""
+    import shutil
+    import tempfile
+    texts, subs = {}, []
+    if REF.is_dir():
+        for ref in sorted(REF.rglob("*.py")):
+            rel = ref.relative_to(REF)
+            try:
+                cur_tree = ast.parse((repo / rel).read_text(encoding="utf-8"))
+                ref_tree = ast.parse(ref.read_text(encoding="utf-8"))
+            except (OSError, SyntaxError, ValueError):
+                continue
+            n = _substitute_container(cur_tree, ref_tree)
+            if n:
+                texts[rel] = ast.unparse(ast.fix_missing_locations(cur_tree)) + "\n"
+                subs.append([str(rel), n])
+    if not texts:
+        return repo, subs, (lambda: None)
+    mirror = Path(tempfile.mkdtemp(prefix="verif_canon_", dir=os.environ.get("VERIF_SCRATCH") or None))
+    shutil.copytree(repo / "src", mirror / "src", ignore=shutil.ignore_patterns("__pycache__", "*.pyc"))
+    for rel, text in texts.items():
+        (mirror / rel).write_text(text, encoding="utf-8")
+    return mirror, subs, (lambda: shutil.rmtree(mirror, ignore_errors=True))
+
+
 def translate(repo: Path):
+    view, subs, cleanup = canonical_view(repo)
+    try:
+        text, info = _translate(view)
+    finally:
+        cleanup()
+    info["alpha_equivalent_functions_shown_as_reference"] = subs
+    return text, info
+
+
+def _translate(repo: Path):
     dup = [n for n in {f.coq_name for f in FRAGMENTS} if sum(1 for f in FRAGMENTS if f.coq_name == n) > 1]
     if dup:
         raise RuntimeError(f"two fragments emit the same Coq name: {dup}")
